@@ -369,6 +369,10 @@ func (s *SpecValidator) validateCircularAncestry(nm string, sch spec.Schema, kno
 			}
 		}
 	}
+	if schn != nm && schn != "" {
+		// ancestry is a path, not everything visited so far: an ancestor shared by two branches is not a cycle
+		delete(knowns, schn)
+	}
 	return ancs, res
 }
 
